@@ -67,6 +67,15 @@ fn run(input: RunInput) -> ScenFuture {
         // an arrival never counts once it is gone: the model is unchanged by it.
         let ghosts = w.flag("vanishing_dialers", 0.5);
         let mut retired = Vec::new();
+        // dials of the listener's own that hang (explicit ones to addresses where nobody answers, a
+        // High-affinity peer behind such an address): connections being established are not
+        // established connections, so an arrival meanwhile is judged exactly as without them
+        let hanging = w.flag("listener_dials_hang_meanwhile", 0.4);
+        let mut hanging_tasks = Vec::new();
+        if hanging && r.gen_bool(0.5) {
+            l.net.known_peers().insert(PeerInfo { peer_id: PeerId([0xEE; 32]), affinity: PeerAffinity::High, address: vec![addr(250).into()] });
+            w.probe("high-peer-behind-a-dead-address");
+        }
         for step in 0..n_steps {
             let k = r.gen_range(0..n_dialers);
             let d = &dialers[k];
@@ -113,6 +122,14 @@ fn run(input: RunInput) -> ScenFuture {
                 let count_before = if lossy { l.net.peers().len() } else { model.len() };
                 let count = count_before;
                 let permit = admit(a, limit, count);
+                if hanging && r.gen_bool(0.5) {
+                    for x in 0..r.gen_range(1..4u8) {
+                        let net = l.net.clone();
+                        hanging_tasks.push(tokio::spawn(async move { net.connect(addr(240 + x)).await.map(|_| ()) }));
+                    }
+                    sleep_ms(r.gen_range(0..40)).await;
+                    w.probe("arrival-while-listener-dials-hang");
+                }
                 if a != Affinity::Unknown || limit.map(|l| count + 1 >= l).unwrap_or(false) {
                     decided += 1;
                 }
@@ -226,6 +243,9 @@ fn run(input: RunInput) -> ScenFuture {
             if w.violated() {
                 break;
             }
+        }
+        for t in hanging_tasks {
+            t.abort();
         }
         if decided > 0 {
             w.mark_overlap();
